@@ -4,8 +4,9 @@
 // font.installTrueTypeCollectionResults, api.installFonts (+ commitStagedFontsWithOperations),
 // api.publishCheatSheets / createUserFontDemoBatch and api.publishCertificateImports are driven through
 // the verif export files with a recording + faulting operation table, on real temporary directories:
-//   K  result / operation trace / final directory tree are compared with the extracted Coq model;
-//   O  the property itself is evaluated on the real tree (all-new or exactly-old, leftovers named).
+//
+//	K  result / operation trace / final directory tree are compared with the extracted Coq model;
+//	O  the property itself is evaluated on the real tree (all-new or exactly-old, leftovers named).
 package main
 
 import (
